@@ -457,7 +457,10 @@ impl<S: Spec, C: flatcontainer::impls::index::IndexContainer<Idx<S>> + 'static> 
             }
         }
         match self.check() {
-            Ok(()) => Step::Ok,
+            Ok(()) => {
+                self.tags.push(format!("len:{}:oob-panics", self.model.len().min(4)));
+                Step::Ok
+            }
             Err(e) => Step::Violation(format!("after {what}: {e}")),
         }
     }
